@@ -23,3 +23,4 @@ def run(chk):
     backtest_rules.process_data(chk, "C03")
     backtest_rules.run_loop(chk, "C03")
     check_equiv(chk, "C03.R4", "bt/algos.py", "CapitalFlow", "__call__", CAPITAL_FLOW_REF, "capital-flow", "CapitalFlow adjusts the target by its amount as a flow that marks the tree stale")
+    core_rules.accessor_rules(chk, "C03")
